@@ -144,7 +144,7 @@ func init() {
 	}
 	props["C13"] = &Prop{
 		Rule: "op reader <T> <tau> <omega> <script>: the real file_handler.Handle on a scripted io.Reader under bufio (chunks of bytes, single/double/triple EOF and i/o-timeout results between and inside " +
-			"frames at every byte offset of short streams, other errors anywhere), tolerances (0,0), (80 ms, wait 1 ms), (3 ms, wait 15 ms); forwarded bytes, stop reason and delivered messages compared with " +
+			"frames at every byte offset of short streams, other errors anywhere, including directly after a tolerated interruption), tolerances (0,0), (80 ms, wait 1 ms), (3 ms, wait 15 ms); forwarded bytes, stop reason and delivered messages compared with " +
 			"the model run on an ideal clock and with the property (single interruptions invisible; a stop still delivers everything received, channel closed); non-trivial = the script contains an interruption; distinct = distinct op line",
 		Gen: func(c *Ctx, emit func(class, op string)) {
 			r := c.Rng
@@ -195,6 +195,22 @@ func init() {
 						emit("single-interruption-with-data", mk([2]int{80, 1}, items2))
 					}
 				}
+			}
+			// another read error arriving while the handler is already retrying after a tolerated
+			// end-of-file or timeout (no byte read in between): it stops there, whatever follows
+			for i := 0; i < c.N(12, 120); i++ {
+				bs := append(randFrame(r, 2+r.Intn(8)), randFrame(r, 2+r.Intn(8))...)
+				off := 1 + r.Intn(len(bs)-1)
+				items := []string{"b:" + hx(bs[:off]), fail()}
+				if i%3 == 2 {
+					items = append(items, fail())
+				}
+				if i%4 == 3 {
+					items = append(items, "bx:"+hx(bs[off:off+1]), "b:"+hx(bs[off+1:]))
+				} else {
+					items = append(items, "err", "b:"+hx(bs[off:]))
+				}
+				emit("other-error-while-retrying", mk([][2]int{{80, 1}, {120, 70}, {20, 20}, {3, 15}}[i%4], items))
 			}
 			for i := 0; i < c.N(40, 600); i++ {
 				bs := pipeStream(c)
